@@ -148,10 +148,11 @@ for k, v in ADD5.items():
     CHECKS[k] = (c[0], c[1], c[2] + v, c[3], c[4])
 # additions of the sixth session
 ADD6 = {
- "C07": " The reader handed to extract() serves short reads and reports ErrorKind::Interrupted before every n-th read (only where no entry is abandoned half-read): a safe archive must still extract completely.",
+ "C07": " A file's parent directory may get its explicit entry, with permission bits of its own, only after the file. The reader handed to extract() serves short reads and reports ErrorKind::Interrupted before every n-th read (only where no entry is abandoned half-read): a safe archive must still extract completely.",
  "C09": " A zero-length read may precede the abandoning of a partly read streamed entry. apis: after the scheduled plain reads the caller finishes each entry through another Read entry point (read_to_end, read_exact(size)+read_to_end, io::copy, read_vectored, bytes(), read_to_string) x chunk schedules x schedules on which the underlying reader reports ErrorKind::Interrupted before every n-th read (the caller retries, as the Read contract asks) x every seed archive, seekable and (fully consumed) streaming; the random tier draws API and interrupt schedule as well.",
  "C10": " damaged: one byte of one entry's data (4 methods, 1 B..300 KB) is altered; the stream must list the same entries as the seekable reader over the same bytes and deliver every entry the seekable reader delivers - in particular those behind the damaged one - whether the consumer reads the damaged entry to its error, half of it, or skips it.",
- "C11": " Reader scenarios with a nested archive keep an archive comment; the streaming reader is swept once more with a consumer that skips every entry (a panic of the drop-time drain is accepted there, a clean end with a different entry list is not); long runs (> 3000 I/O calls) are swept at the first/last 1200 call indices and 600 evenly spaced ones. Half of the writer scenarios use a caller that issues EVERY call of an operation whatever the earlier ones returned (write after a refused start_file, end_extra_data after a failed write) and calls flush() after each operation; writers_methods: every method x every kind of following operation under both callers; writers_far: a run whose sink starts beyond 4 GiB (ZIP64 end record + locator are written) with EVERY I/O call failed in turn. A call that never returns is left out by the stall monitor and ends the check inconclusive (exit 2) unless other cases show a violation.",
+ "C16": " tamper_tail: entries whose compressed length ends 1..12 bytes behind a multiple of 8 / 32 / 128 KiB (found by search), every bit of the authentication code and of the last two ciphertext bytes flipped, read with one big buffer and with small ones.",
+ "C11": " Whenever a second finish() reports success after the first one failed, the archive it finished must be sound (independent parser accepts it, every entry reads back, encrypted ones with a password the scenario used); the seek-fault variant is a listed open finding. Reader scenarios with a nested archive keep an archive comment; the streaming reader is swept once more with a consumer that skips every entry (a panic of the drop-time drain is accepted there, a clean end with a different entry list is not); long runs (> 3000 I/O calls) are swept at the first/last 1200 call indices and 600 evenly spaced ones. Half of the writer scenarios use a caller that issues EVERY call of an operation whatever the earlier ones returned (write after a refused start_file, end_extra_data after a failed write) and calls flush() after each operation; writers_methods: every method x every kind of following operation under both callers; writers_far: a run whose sink starts beyond 4 GiB (ZIP64 end record + locator are written) with EVERY I/O call failed in turn. A call that never returns is left out by the stall monitor and ends the check inconclusive (exit 2) unless other cases show a violation.",
  "C13": " long_text_bases: reference-built bases with a 300..65535-byte name and/or file comment of CP437 high bytes, invalid UTF-8 under the language flag or valid UTF-8 (text that grows when re-encoded): a refusal is accepted when the text no longer fits 16 bits, a reported success must be a valid archive holding every old entry.",
  "C17": " A third of the extra-data cases first deliver the last buffer only up to a cut inside a record, get end_extra_data()'s refusal, deliver the rest and continue: placement (local part only in the local header, central part only in the central record) and the announced data start must be as for an undisturbed sequence.",
  "C02": " Extra-data and aligned entries may carry the ZipCrypto option; in the reject domain the caller still writes the data of an entry whose extra data was refused (compressing method every other length).",
@@ -196,7 +197,7 @@ m = {
               "kind_free_text": "Rust harness: proptest-driven generated-input search (per-case RNG streams, sharded over all cores, shrinking to replay files), exhaustive enumerations of finite sub-spaces, fault/chunk-schedule injection through instrumented streams, independent reference ZIP builder/strict parser/crypto as oracles, supervisor process for abort/hang diagnosis"}],
  "checks": checks,
  "not_applicable": na,
- "notes": "Exit codes: 0 held, 1 violation (VIOLATION line with replay file), 2 inconclusive (build failure, self-test failure, watchdog). VERIF_SEED selects the PRNG streams. KNOWN_FINDINGS.txt lists open/fixed findings (3 open: C05 bzip2-c-decoder-uninitialised-read, C13 append-leaves-stale-tail, C16 ae2-compressed-early-stream-end; 14 fixed by unguarded fix: commits in /repo).",
+ "notes": "Exit codes: 0 held, 1 violation (VIOLATION line with replay file), 2 inconclusive (build failure, self-test failure, watchdog, or test executions that never returned - the stall monitor leaves them out, reports violations other cases show, and otherwise ends inconclusive). VERIF_SEED selects the PRNG streams. KNOWN_FINDINGS.txt lists open/fixed findings (4 open: C05 bzip2-c-decoder-uninitialised-read, C11 seek-fault-while-closing-then-finish-again, C13 append-leaves-stale-tail, C16 ae2-compressed-early-stream-end; 16 fixed by unguarded fix: commits in /repo).",
 }
 json.dump(m, open(os.path.join(ROOT, "MANIFEST.json"), "w"), indent=1)
 print("checks:", len(checks), "not_applicable:", len(na))
